@@ -36,8 +36,15 @@ thread_local! {
     static LAST_PANIC: std::cell::RefCell<Option<(String, String)>> = const { std::cell::RefCell::new(None) };
 }
 
+#[global_allocator]
+static GLOBAL: tendril_hist::ledger::Ledger = tendril_hist::ledger::Ledger;
+
 fn install_panic_hook() {
     std::panic::set_hook(Box::new(|info| {
+        if tendril_hist::ledger::is_active() {
+            // expected panics inside a ledger region must not leave allocations behind
+            return;
+        }
         let loc = info.location().map(|l| format!("{}:{}", l.file(), l.line())).unwrap_or_default();
         let msg = if let Some(s) = info.payload().downcast_ref::<&str>() {
             s.to_string()
@@ -84,6 +91,13 @@ fn worker(args: &[String]) -> i32 {
         std::fs::File::from_raw_fd(fd)
     };
     install_panic_hook();
+    // A memory-safety bug in the code under test can make a worker allocate without bound:
+    // cap the address space so that it dies (and is reported as a crash) instead of taking
+    // the machine down.
+    unsafe {
+        let lim = libc::rlimit { rlim_cur: 6 << 30, rlim_max: 6 << 30 };
+        libc::setrlimit(libc::RLIMIT_AS, &lim);
+    }
     let world = match world_for(prop) {
         Some(w) => w,
         None => return 2,
@@ -299,6 +313,7 @@ fn check(args: &[String]) -> i32 {
     let mut panicked_cases: u64 = 0;
     let mut crashed_cases: Vec<(u64, String)> = vec![];
     let mut hung_cases: Vec<u64> = vec![];
+    let mut crash_restarts = 0u32;
     let mut samples: Vec<Value> = vec![];
     let mut known_hits: BTreeMap<String, u64> = BTreeMap::new();
 
@@ -402,7 +417,8 @@ fn check(args: &[String]) -> i32 {
                         }
                         let next = idx + w as u64;
                         workers[i].next_after_crash = next;
-                        if next < ncases {
+                        crash_restarts += 1;
+                        if next < ncases && crash_restarts <= 12 {
                             workers[i].child = spawn_worker(&prop, &tier, seed, i, w, ncases, next, &tx);
                         } else {
                             workers[i].done = true;
@@ -432,8 +448,9 @@ fn check(args: &[String]) -> i32 {
 
     // confirm crashes and hangs in isolation so that load cannot produce a false alarm
     let mut confirmed: Vec<Finding> = vec![];
-    for (idx, st) in &crashed_cases {
-        let r = run_single_case_subprocess(&prop, &tier, seed, *idx, Duration::from_secs(240));
+    let confirm = world.reports_crashes();
+    for (idx, st) in crashed_cases.iter().take(if confirm { 3 } else { 0 }) {
+        let r = run_single_case_subprocess(&prop, &tier, seed, *idx, Duration::from_secs(120));
         if r != Some(0) {
             let mut rng = Rng::for_case(seed, domain(&prop), *idx);
             let case = world.gen(&mut rng, thorough);
@@ -442,12 +459,12 @@ fn check(args: &[String]) -> i32 {
             confirmed.push(Finding { idx: *idx, class: "abort".into(), detail, replay: path });
         }
     }
-    for idx in &hung_cases {
-        let r = run_single_case_subprocess(&prop, &tier, seed, *idx, Duration::from_secs(240));
+    for idx in hung_cases.iter().take(if confirm { 2 } else { 0 }) {
+        let r = run_single_case_subprocess(&prop, &tier, seed, *idx, Duration::from_secs(120));
         if r.is_none() {
             let mut rng = Rng::for_case(seed, domain(&prop), *idx);
             let case = world.gen(&mut rng, thorough);
-            let detail = "case did not finish within 240 s when re-run alone".to_string();
+            let detail = "case did not finish within 120 s when re-run alone".to_string();
             let path = write_replay(&prop, world.world_name(), seed, *idx, "hang", &detail, &case, "hang");
             confirmed.push(Finding { idx: *idx, class: "hang".into(), detail, replay: path });
         } else if r != Some(0) {
@@ -455,10 +472,11 @@ fn check(args: &[String]) -> i32 {
         }
     }
     let mut skipped_crashes = 0u64;
-    if world.reports_panics() {
+    if world.reports_crashes() {
         findings.extend(confirmed);
     } else {
-        skipped_crashes = confirmed.len() as u64;
+        skipped_crashes = (crashed_cases.len() + hung_cases.len()) as u64;
+        let _ = confirmed;
     }
     findings.sort_by_key(|f| f.idx);
 
